@@ -108,7 +108,14 @@ func canonInput(input string) []string {
 	for c := range groups {
 		names = append(names, c)
 	}
-	sort.Strings(names)
+	// Felix-owned chains (second pass of applyUpdates) before shared chains (insert/append pass)
+	sort.Slice(names, func(i, j int) bool {
+		oi, oj := oursRe.MatchString(names[i]), oursRe.MatchString(names[j])
+		if oi != oj {
+			return oi
+		}
+		return names[i] < names[j]
+	})
 	out := fwd
 	for _, c := range names {
 		out = append(out, groups[c]...)
